@@ -70,4 +70,76 @@ theorem C11_shared_lock_does_not_order :
 
 theorem C11_ordered_symm {a b : Access} (h : ordered a b) : ordered b a := ordered_symm h
 
+/-- The happens-before edge itself, in EVERY execution of the mutex semantics: between the point where
+goroutine `t₁` performs `a` holding the table's locks for `a` and the later point where `t₂ ≠ t₁`
+performs `b` holding the table's locks for `b`, with `commonLock a b`, the execution contains `t₁`'s
+release of a common lock `l` FOLLOWED BY `t₂`'s acquisition of `l` in the mode the table lists for `b`
+(access `a` →program-order release →synchronises-with acquire →program-order access `b`; the middle
+arrow is the Go memory model's guarantee for `sync.Mutex`/`RWMutex`, assumed). -/
+theorem C11_exclusive_lock_happens_before {a b : Access} (hcl : commonLock a b)
+    {pre mid : List Ev} {st₁ st₂ : LState} {t₁ t₂ : Nat}
+    (hpre : run [] pre = some st₁) (hmid : run st₁ mid = some st₂)
+    (ha : ∀ p ∈ a.held, (t₁, p.1, p.2) ∈ st₁) (hb : ∀ p ∈ b.held, (t₂, p.1, p.2) ∈ st₂)
+    (hne : t₁ ≠ t₂) :
+    ∃ l m₂ x y z, (l, m₂) ∈ b.held ∧ mid = x ++ Ev.rel t₁ l :: (y ++ Ev.acq t₂ l m₂ :: z) :=
+  commonLock_hb_between hcl hpre hmid ha hb hne
+
+/-- the hypotheses are satisfiable and the conclusion is the expected pair: reader under RLock, then
+writer under Lock of the same RWMutex (with an unrelated event in between) -/
+example : ∃ st₁ st₂, run [] [Ev.acq 1 0 .shared] = some st₁ ∧
+    run st₁ [Ev.acc 1 0, Ev.rel 1 0, Ev.acc 3 9, Ev.acq 2 0 .excl] = some st₂ ∧
+    (1, 0, LMode.shared) ∈ st₁ ∧ (2, 0, LMode.excl) ∈ st₂ :=
+  ⟨[(1, 0, .shared)], [(2, 0, .excl)], by decide, by decide, by decide, by decide⟩
+
+/-- **C07 ⇒ lock-free readers are race free.**  If a table is race free and a set of locations is
+frozen in it (no write row after construction — for the `published:` locations, the contents of the
+messages a resource stores and hands out by pointer, that is C07's "published messages are never
+written" as the extractor sees the library), then ANY family of reader rows of those locations can be
+added — interceptors, include predicates, `Get`/`List` callers, event consumers; any function, any
+lock set (none), any goroutine — and the table stays race free. -/
+theorem C11_published_readers_free {t readers : List Access} (h : raceFree t)
+    (hr : ∀ r ∈ readers, r.kind = Kind.R ∧ frozenIn t r.field) : raceFree (t ++ readers) :=
+  raceFree_add_readers h hr
+
+/-- the hypothesis is satisfiable: a message written only while it is constructed, then read by two
+unrelated lock-free consumers -/
+example : raceFree ([Access.mk 0 .W 0 [] .init 0 [] []] ++
+    [Access.mk 0 .R 1 [] .live 0 [] [], Access.mk 0 .R 2 [] .live 0 [] []]) :=
+  C11_published_readers_free (by decide) (by
+    intro r hr
+    simp only [List.mem_cons, List.not_mem_nil, or_false] at hr
+    rcases hr with rfl | rfl <;> exact ⟨rfl, (frozenInB_iff _ _).mp (by decide)⟩)
+
+/-- …and the converse, the shape of a write into a live stored message (`mode.StartTime = …` on the
+result of an unmasked `Get`): a live write under no lock together with ANY live reader of the same
+location — a consumer marshalling an event it received — refutes the discipline of every table that
+contains both, whatever locks the reader holds. -/
+theorem C11_published_write_refutes {t : List Access} {w r : Access} (hw : w ∈ t) (hr : r ∈ t)
+    (hf : w.field = r.field) (hk : w.kind = Kind.W) (hwp : w.phase = Phase.live)
+    (hrp : r.phase = Phase.live) (hro : w.role = 0) (hh : w.held = []) (hrel : w.relAfter = [])
+    (hacq : w.acqBefore = []) : ¬ raceFree t :=
+  fun h => not_ordered_bare_write hwp hrp hro hh hrel hacq (h w hw r hr ⟨hf, Or.inl hk⟩)
+
+/-- the hypotheses are satisfiable (the reader even holds a lock: it does not help) -/
+example : ¬ raceFree [Access.mk 0 .W 0 [] .live 0 [] [], Access.mk 0 .R 1 [(0, .excl)] .live 0 [] []] :=
+  C11_published_write_refutes (w := Access.mk 0 .W 0 [] .live 0 [] [])
+    (r := Access.mk 0 .R 1 [(0, .excl)] .live 0 [] []) (by simp) (by simp) rfl rfl rfl rfl rfl rfl rfl rfl
+
+/-- The decision the kernel runs on the extracted table (`raceFreeG`: one pass over the field-sorted
+table, quadratic only inside each run of equal field) never accepts a table that violates the
+discipline — for every table, sorted or not. -/
+theorem C11_grouped_check_sound (tbl : List Access) (h : raceFreeG tbl = true) : raceFree tbl :=
+  raceFreeG_sound tbl h
+
+/-- …and on a table in the generator's order (field numbers never decrease) it is complete: a refuted
+`C11_lock_discipline` means the extracted table really violates the discipline (or is not sorted). -/
+theorem C11_grouped_check_complete (tbl : List Access) (hs : sortedByField tbl) (h : raceFree tbl) :
+    raceFreeG tbl = true :=
+  raceFreeG_complete tbl hs h
+
+/-- the hypotheses are satisfiable: two runs, the first one a reader/writer pair under one RWMutex -/
+example : raceFreeG [Access.mk 0 .R 0 [(0, .shared)] .live 0 [] [], Access.mk 0 .W 1 [(0, .excl)] .live 0 [] [],
+    Access.mk 3 .W 2 [] .init 0 [] []] = true :=
+  C11_grouped_check_complete _ ((sortedByFieldB_iff _).mp (by decide)) (by decide)
+
 end ScVerif.C11
